@@ -37,6 +37,8 @@ type Obligation struct {
 }
 
 type Engine struct {
+	templateMode bool             // replay: stop after building the entry state and evaluate the ensures over placeholders
+	templateOut  *replayTemplates
 	curContract *Contract // contract of the function being verified
 	nilBytes *Region // backing of the empty byte string that stands for nil slices in DER predicates
 	prog     *ssa.Program
